@@ -53,6 +53,12 @@ func (a DispatchedAmountEntry) Validate() error {
 		return errorsmod.Wrap(err, "invalid destination cross-chain ID")
 	}
 
+	// NOTE: an amount missing from the genesis document is decoded as an
+	// integer that is not set, every other method of which panics.
+	if a.AmountDispatched.Incoming.IsNil() || a.AmountDispatched.Outgoing.IsNil() {
+		return errors.New("cannot set amounts that are not set")
+	}
+
 	if a.AmountDispatched.Incoming.IsNegative() || a.AmountDispatched.Outgoing.IsNegative() {
 		return errors.New("cannot set negative amounts")
 	}
